@@ -2,7 +2,6 @@
 import atexit
 import hashlib
 import json
-import multiprocessing as mp
 import os
 import shutil
 import sys
@@ -55,7 +54,7 @@ _OWNER_PID = None
 def scratch_root():
     """Private scratch directory on tmpfs, removed at exit of the creating process."""
     global _SCRATCH_ROOT, _OWNER_PID
-    if _SCRATCH_ROOT is None or _OWNER_PID != os.getpid() and not os.path.isdir(_SCRATCH_ROOT):
+    if _SCRATCH_ROOT is None:
         base = '/dev/shm' if os.path.isdir('/dev/shm') and os.access('/dev/shm', os.W_OK) else None
         _SCRATCH_ROOT = tempfile.mkdtemp(prefix='dv-', dir=base)
         _OWNER_PID = os.getpid()
@@ -123,20 +122,72 @@ def jsonable(o):
     return repr(o)
 
 
-def _pool_init():
-    warnings.simplefilter('ignore')
+def fork_map(func, items, procs=None, chunk=1):
+    """Deterministic parallel map over forked children (results in input order).
+
+    Own implementation instead of multiprocessing.Pool so that it can be nested
+    (graph-level and level-synchronous parallelism), so that closures over live
+    state work (children are forks of the caller), and so that a child killed by a
+    signal is reported instead of hanging the pool.  A child failure raises."""
+    import pickle
+    import selectors
+    import traceback
+    items = list(items)
+    procs = min(procs or NCPU, max(1, -(-len(items) // chunk)))
+    if procs <= 1 or os.environ.get('DV_SERIAL'):
+        return [func(i) for i in items]
+    scratch_root()                       # children must share the parent's root
+    chunks = [items[i:i + chunk] for i in range(0, len(items), chunk)]
+    results = [None] * len(chunks)
+    sel = selectors.DefaultSelector()
+    running = {}                         # read fd -> (chunk index, pid, bytearray)
+    nxt = 0
+    sys.stdout.flush()
+    sys.stderr.flush()
+    while nxt < len(chunks) or running:
+        while nxt < len(chunks) and len(running) < procs:
+            r, w = os.pipe()
+            pid = os.fork()
+            if pid == 0:
+                code = 0
+                try:
+                    os.close(r)
+                    try:
+                        data = pickle.dumps(('ok', [func(x) for x in chunks[nxt]]))
+                    except BaseException:  # noqa: BLE001
+                        data = pickle.dumps(('err', traceback.format_exc()))
+                    with os.fdopen(w, 'wb') as f:
+                        f.write(data)
+                except BaseException:  # noqa: BLE001
+                    code = 3
+                finally:
+                    os._exit(code)
+            os.close(w)
+            running[r] = (nxt, pid, bytearray())
+            sel.register(r, selectors.EVENT_READ)
+            nxt += 1
+        for key, _ in sel.select():
+            fd = key.fd
+            idx, pid, buf = running[fd]
+            data = os.read(fd, 1 << 20)
+            if data:
+                buf += data
+                continue
+            sel.unregister(fd)
+            os.close(fd)
+            del running[fd]
+            _, status = os.waitpid(pid, 0)
+            if os.WIFSIGNALED(status) or not buf:
+                raise RuntimeError(f'worker for chunk {idx} died (status {status})')
+            kind, val = pickle.loads(bytes(buf))
+            if kind == 'err':
+                raise RuntimeError('worker failed:\n' + val)
+            results[idx] = val
+    return [x for c in results for x in c]
 
 
 def pmap(func, items, procs=None, chunksize=1):
-    """Deterministic parallel map (results in input order).  Workers are forked,
-    so they share the already imported tree under test."""
-    items = list(items)
-    procs = min(procs or NCPU, max(1, len(items)))
-    if procs <= 1 or os.environ.get('DV_SERIAL'):
-        return [func(i) for i in items]
-    ctx = mp.get_context('fork')
-    with ctx.Pool(procs, initializer=_pool_init) as pool:
-        return pool.map(func, items, chunksize=chunksize)
+    return fork_map(func, items, procs=procs, chunk=chunksize)
 
 
 class Timer:
